@@ -25,13 +25,13 @@ Variable prods : list bprod.
 Variable ms : list meth.
 
 Notation acts := (actions ms).
-Notation has_type := (has_type o tok rules prods ms).
-Notation typing := (typing o tok rules prods ms).
+Notation has_type := (has_type o tok err rules prods ms).
+Notation typing := (typing o tok err rules prods ms).
 Notation accepts := (accepts o tok err).
-Notation rt_final := (rt_final o tok rules prods ms).
-Notation reduce2 := (reduce_type o tok rules prods reduce_fuel).
-Notation pass' := (pass o tok rules prods).
-Notation derive' := (derive o tok rules prods).
+Notation rt_final := (rt_final o tok err rules prods ms).
+Notation reduce2 := (reduce_type o tok err rules prods reduce_fuel).
+Notation pass' := (pass o tok err rules prods).
+Notation derive' := (derive o tok err rules prods).
 Notation rt0 := (phase1_types o rules acts).
 
 Hypothesis Hwf : wf_input rules prods ms = true.
@@ -60,7 +60,7 @@ Definition source_rel (k pi : nat) (x : bool * nat) (sl : bool) : Prop :=
       is_plus (br_kind rc) /\ br_prods rc = q :: p1 :: rest' /\
       nth_error prods p1 = Some pc /\ bp_terms pc = x :: xs')).
 
-Lemma first_term_spec_fty : forall rt x e, first_term_spec tok rt x e <-> e = fty rt x.
+Lemma first_term_spec_fty : forall rt x e, first_term_spec tok err rt x e <-> e = fty rt x.
 Proof.
   intros rt [b c] e. unfold first_term_spec, fty. simpl. destruct b; split.
   - intros [[_ H]|[H _]]; [auto|discriminate].
@@ -70,7 +70,7 @@ Proof.
 Qed.
 
 Lemma first_term_ity_fty : forall rt p x xs,
-  bp_terms p = x :: xs -> first_term_ity tok rt p = Some (fty rt x).
+  bp_terms p = x :: xs -> first_term_ity tok err rt p = Some (fty rt x).
 Proof.
   intros rt p [b c] xs H. unfold first_term_ity, fty. rewrite H. destruct b; reflexivity.
 Qed.
@@ -82,7 +82,7 @@ Proof. intros [|t|e]; reflexivity. Qed.
 Lemma reduce_plus_at : forall f rt c rc q p1 rest p x xs,
   nth_error rules c = Some rc -> is_plus (br_kind rc) ->
   br_prods rc = q :: p1 :: rest -> nth_error prods p1 = Some p -> bp_terms p = x :: xs ->
-  reduce_type o tok rules prods (S f) rt c p1 = RT (islice o (fty rt x)).
+  reduce_type o tok err rules prods (S f) rt c p1 = RT (islice o (fty rt x)).
 Proof.
   intros f rt c rc q p1 rest p x xs Hn Hk Hp Hnp Hx. simpl. rewrite Hn.
   destruct Hk as [K|[K|K]]; rewrite K, Hp, Nat.eqb_refl; simpl; rewrite Hnp;
@@ -142,7 +142,7 @@ Proof.
               | Some rc =>
                 match br_prods rc with
                 | _ :: p1 :: _ =>
-                  match reduce_type o tok rules prods f1 rt c p1 with
+                  match reduce_type o tok err rules prods f1 rt c p1 with
                   | RP s => RP s
                   | RT INil => RP PAssertNil
                   | RT t => RT t
@@ -162,7 +162,7 @@ Proof.
     destruct (bp_terms p) as [|[[|] c] xs] eqn:Hx; try discriminate.
     destruct (nth_error rules c) as [rc|] eqn:Hnc; [|discriminate].
     destruct (br_prods rc) as [|q [|p1 rest']] eqn:Hpc; try discriminate.
-    destruct (reduce_type o tok rules prods f1 rt c p1) as [s|t'] eqn:Hin; [discriminate|].
+    destruct (reduce_type o tok err rules prods f1 rt c p1) as [s|t'] eqn:Hin; [discriminate|].
     assert (Ht' : t' = t) by (destruct t'; congruence). subst t'. clear H'.
     subst f1.
     assert (Hkc : is_plus (br_kind rc)).
@@ -188,7 +188,7 @@ Proof.
     2:{ inversion H. congruence. }
     apply Nat.eqb_eq in E. subst p0.
     destruct (nth_error prods pi) as [p|] eqn:Hnp; [|discriminate].
-    destruct (first_term_ity tok rt p) as [e|] eqn:Ef; [|discriminate].
+    destruct (first_term_ity tok err rt p) as [e|] eqn:Ef; [|discriminate].
     inversion H; subst. apply first_term_inv in Ef. destruct Ef as [x [xs [Hx Hsp]]].
     apply first_term_spec_fty in Hsp. subst t.
     exists x, false. split; auto. exists r. split; auto. left.
@@ -317,7 +317,7 @@ Lemma derive_hist : forall fuel rt rt',
   derive' fuel rt = DvOk rt' -> hist rt rt'.
 Proof.
   intros fuel rt rt' H.
-  eapply (derive_invariant o tok rules prods (hist rt)); [| |exact H].
+  eapply (derive_invariant o tok err rules prods (hist rt)); [| |exact H].
   - intros rt1 k t pi Hh Hnil Ht Hr. eapply hist_step; eauto.
   - constructor.
 Qed.
